@@ -28,6 +28,7 @@ type Mem struct {
 	allocs []*Alloc // sorted by Base
 	next   uint64
 	NAlloc int
+	OnOOB  func(what string)
 }
 
 func NewMem(m *Machine) *Mem { return &Mem{m: m, next: 0x10000000} }
@@ -222,6 +223,9 @@ func (mm *Mem) LoadBytes(a *Alloc, off *smt.Term, n int, what string) []*smt.Ter
 	if off.IsConst() {
 		o := int(off.Uint())
 		if off.Uint() > uint64(a.Size) || o+n > a.Size {
+			if mm.OnOOB != nil {
+				mm.OnOOB(what)
+			}
 			mm.m.Assert(smt.False, "mem.oob", fmt.Sprintf("%s: read of %d bytes at offset %d of %s (size %d)", what, n, int64(off.Uint()), a.Name, a.Size), "oob")
 			mm.m.EndPath("oob")
 		}
